@@ -50,6 +50,10 @@ PR2 == <<GenP(<<112, 50>>, <<[t |-> "i", x |-> -7], [t |-> "r", x |-> 20], [t |-
 PR3 == <<GenP(<<113>>, <<>>),
          GenP(<<113>>, <<[t |-> "s", x |-> <<>>], [t |-> "s", x |-> <<116, 101>>], [t |-> "s", x |-> <<116, 101, 120, 116>>],
                          [t |-> "s", x |-> <<116>>], [t |-> "s", x |-> <<116, 101, 120, 116>>]>>)>>
+\* value counts around the PROPERTY info byte's 4-bit field: 14 (the largest inline count), 15 and 16
+\* (count written after the info byte)
+NVals(n) == [i \in 1..n |-> [t |-> "u", x |-> 100 + i]]
+PR4 == <<GenP(<<118, 49>>, NVals(14)), GenP(<<118, 50>>, NVals(15)), GenP(<<118, 51>>, NVals(16)), GenP(<<118, 52>>, NVals(1))>>
 PropsV(k) == CASE k % 4 = 0 -> PR0 [] k % 4 = 1 -> PR1 [] k % 4 = 2 -> PR2 [] OTHER -> PR3
 
 \* repetitions on whole grid units (4 quanta), so that the rounding of a sum is the sum of roundings
@@ -192,6 +196,7 @@ Singles(k) == {Lib1("polys", e) : e \in CTrapPolys(k) \cup TrapPolys(k) \cup Rec
 Libs == (IF Depth = "thorough" THEN UNION {Singles((Seed + 2 * k) % 14) : k \in 0..6} \cup {MixedLib(k) : k \in 0..25}
          ELSE Singles(Seed % 14) \cup {MixedLib(k) : k \in {Seed % 26, (Seed + 9) % 26, (Seed + 17) % 26}})
         \cup NearLibs \cup {AL(<<CircleSeg(q), Sub, Leaf>>, PR0) : q \in 0..1}
+        \cup {Lib1("polys", PolyE(1, 0, TriQ, NoRep, PR4)), Lib1("labels", LabelE(3, 3, 0, FALSE, 1024, 0, <<1, 3>>, <<104, 105>>, NoRep, PR4))}
 \* every library with detection on (shape records) and once with its rotating option set;
 \* the mixed library sweeps all 256 flag sets x levels x tolerances over the run
 Sweep == IF Depth = "thorough"
